@@ -118,7 +118,9 @@ def md_lines(opt, cls, v):
         items = [f"{k}{sep} {x}" if sep == ":" else f"{k} {sep} {x}" for k, x in v.items()]
         return [f"{opt}: {items[0]}"] + [f"    {x}" for x in items[1:]]
     if cls == "filetypes":
-        items = [" ".join(str(p) for p in t if p) for t in v.values()]
+        # columns aligned with several blanks (as the user guide writes them) / separated by a tab
+        seps = ["   ", "\t", " "]
+        items = [seps[k % 3].join(str(p) for p in t if p) for k, t in enumerate(v.values())]
         return [f"{opt}: {items[0]}"] + [f"    {x}" for x in items[1:]]
     raise ValueError(cls)
 
